@@ -5,6 +5,9 @@
     spec/C05_Arith.tla        machine over the input space of the trusted steps: every goal l REL r of depth <= 2 (+ casts, + one level
                               below a subtraction) at each numeric type handed to each step model (type discipline + the step's type-blind
                               evaluator); invariants ValTotal, Laws (library equations), EvAgrees, Sound; emits the goals as vectors
+    spec/C05_Surd.tla         exact comparison of irrational constants q + c * sqrt r (sign analysis and squaring over limb rationals;
+                              holpy's sqrt x = sgn x * sqrt |x|); its laws are model-checked in spec/C05_SurdLaws.tla against an independent
+                              numerical enclosure (integer square roots with native integers) on a rational grid + multi-limb cases
  T  spec/C05_ArithTrace.tla   True_<step>: every sequent accepted by theory.check_proof for a one-step proof with a level-0 arithmetic
                               macro is true under the meaning (exact arithmetic; one false grid point refutes an identity)
  ->  harness/drivers/c05.py   each vector x each level-0 macro found in kernel.theory.global_macros; seeded larger inputs
@@ -70,18 +73,24 @@ def run(rep, tier):
                 "rationals, decimal sums forcing const_inequality's float path, real powers with compound nat exponents (nested truncated "
                 "subtraction, closed and with free nat variables), polynomial identities with free variables (the code's own "
                 "normal forms, textbook identities, perturbations), equivalences of comparisons, constants around and beyond 2^31 / 2^53 / 2^62 "
-                "(exact and non-exact quotients (a*b)/b, sums, differences and products crossing the boundaries, negative ones, at nat/int/real). Non-trivial = some step "
+                "(exact and non-exact quotients (a*b)/b, sums, differences and products crossing the boundaries, negative ones, at nat/int/real); "
+                "near-equal IRRATIONAL constants q + c*sqrt r for n = 10^1 .. 10^60 (sqrt n ? sqrt (n+1), sqrt (n^2+-1) ? n, 1 + sqrt (n^2+1) ? sqrt ((n+1)^2+1), "
+                "sqrt 2 * n ? sqrt (2n^2+1), negated / inverted / scaled roots, roots of near-equal fractions, scaled differences of near-equal numbers), "
+                "each with all relations and as a disequality, decided exactly by squaring in limb arithmetic (C05_Surd); the same shapes over the leaves are "
+                "part of the TLC-enumerated universe. Non-trivial = some step "
                 "ACCEPTED the goal and the truth of the asserted sequent was decided by TLC with exact arithmetic; distinct by full event content."
                 % ("{0,2,3}" if quick else "{0,1,2,3,7}", "compound terms that some evaluator model equates" if quick else "compound terms (sums, differences, and all that some evaluator model equates)"))
     rep.assumptions = ["meaning of numerals/operators read off library/nat.json, int.json, real.json, transcendentals.json (see spec/C05_HolArith.tla); "
                        "int ^ nat taken as the standard power",
-                       "NOT examined (never judged): irrational constants and functions (pi, exp, log, sin, ..., sqrt of a non-square), non-integer "
-                       "exponents, constants at types where the library gives them no meaning (uminus/real_divide at nat, ...), irrational "
-                       "values distinguished only below float precision",
+                       "irrational constants: only comparisons both of whose sides have the form q + c*sqrt r (q, c, r rational; sqrt of a rational, "
+                       "uminus, abs, +/- a rational, */ a rational, inverse of a pure root) are judged - exactly, by squaring; holpy's sqrt of a negative "
+                       "number is -sqrt |x| (library/real.json: sqrt x = (SOME y. real_sgn y = real_sgn x & y^2 = abs x))",
+                       "NOT examined (never judged): other irrational constants and functions (pi, exp, log, sin, ..., sums / products / roots / powers "
+                       "of irrational surds), non-integer exponents, constants at types where the library gives them no meaning (uminus/real_divide at nat, ...)",
                        "magnitudes: statements within 2^30 are decided with TLC's native integers; CLOSED statements beyond that are decided with "
                        "arbitrary-precision limb arithmetic (spec/lib/BigInt.tla, itself model-checked against native integers and the ring laws "
                        "in spec/C05_BigIntLaws.tla; C05_Arith checks that both evaluators agree on the whole universe). Beyond 2^30 still not "
-                       "examined: statements with free variables, DIV/MOD/sqrt, exponents above 64 or not literally integral, results longer "
+                       "examined: statements with free variables, DIV/MOD, exponents above 64 or not literally integral, results longer "
                        "than ~1600 digits",
                        "identities with free variables: a false grid point is a refutation; agreement on the grid is only 'not refuted'",
                        "TLC/SANY, the structural projection in harness/drivers/c05.py (raw fields only), CPython"]
@@ -111,23 +120,45 @@ def run(rep, tier):
                      [("C05_HolArith.tla", "THEN (IF T = \"nat\" THEN BMkV(T, BNatMinus(QB(a1), QB(a2))) ELSE BMkV(T, QSub(QB(a1), QB(a2)))) ELSE NAb",
                        "THEN BMkV(T, BNatMinus(QB(a1), QB(a2))) ELSE NAb")], ["BigAgrees"])]
 
+    # surd module: its laws are model-checked, and mutants of it must be caught
+    scfg = "C05_SurdLaws.cfg" if quick else "C05_SurdLaws_wide.cfg"
+    slaws = ["Numeric", "Order", "Squares", "BigCases"]
+    smutants = [("surd_sign_case_swapped", [("C05_Surd.tla", "ELSE IF sg > 0 THEN CmpQS(QSub(s1, base), cross)", "ELSE IF sg < 0 THEN CmpQS(QSub(s1, base), cross)")], slaws)]
+    if not quick:
+        smutants += [("surd_square_unsigned", [("C05_Surd.tla", "SSq(d) == QMul(d, QAbs(d))", "SSq(d) == QMul(d, d)")], slaws),
+                     ("surd_cross_term_halved", [("C05_Surd.tla", "SFour == QInt(<<1, <<4>>>>)", "SFour == QInt(<<1, <<2>>>>)")], slaws),
+                     ("surd_radicand_sign_lost", [("C05_Surd.tla", "base == QAdd(QMul(d, d), QAbs(s2))", "base == QAdd(QMul(d, d), s2)")], slaws),
+                     ("surd_scaling_linear_in_radicand", [("C05_Surd.tla", "SMulQ(a, k) == <<QMul(a[1], k), QMul(a[2], SSq(k))>>",
+                                                           "SMulQ(a, k) == <<QMul(a[1], k), QMul(a[2], k)>>")], slaws),
+                     ("sqrt_of_negative_taken_positive", [("C05_Surd.tla", "SRoot(q) == <<QZero, q>>", "SRoot(q) == <<QZero, QAbs(q)>>")], slaws)]
+        mutants += [("surd_comparison_reversed",
+                     [("C05_HolArith.tla", "ELSE IF srel\n         THEN LET c == SCmp(SOf(s1), SOf(s2)) IN", "ELSE IF srel\n         THEN LET c == SCmp(SOf(s2), SOf(s1)) IN")],
+                     ["BigAgrees"])]
+
     def side():
         for n, ed, exp in mutants:
             spec_mutant(rep, n, "C05_Arith", "C05_Arith_tiny.cfg", ed, exp, wd=wd, workers=1)
         rb = model_check("C05_BigIntLaws", bcfg, wd=wd / "mcb", workers=1, timeout=7200)
         for n, ed, exp in bmutants:
             spec_mutant(rep, n, "C05_BigIntLaws", "C05_BigIntLaws.cfg", ed, exp, wd=wd, workers=1)
-        return rb
+        rs = model_check("C05_SurdLaws", scfg, wd=wd / "mcs", workers=1, timeout=7200)
+        for n, ed, exp in smutants:
+            spec_mutant(rep, n, "C05_SurdLaws", "C05_SurdLaws.cfg", ed, exp, wd=wd, workers=1)
+        return rb, rs
     # ---- design level (S) + oracle non-vacuity (mutants on a tiny universe) + the big-integer laws, side by side
     with ThreadPoolExecutor(max_workers=2) as ex:
         f1 = ex.submit(model_check, "C05_Arith", "C05_Arith_%s.cfg" % sfx, wd=wd / "mc", workers=1 if quick else 4,
                        env={"VECTOR_FILE": vec}, timeout=7200)
         f3 = ex.submit(side)
         r = f1.result()
-        rb = f3.result()
+        rb, rs = f3.result()
     rep.add_mc("C05_BigIntLaws", rb, bcfg)
     if rb.violated:
         rep.design_violation("C05_BigIntLaws", rb)
+        return
+    rep.add_mc("C05_SurdLaws", rs, scfg)
+    if rs.violated:
+        rep.design_violation("C05_SurdLaws", rs)
         return
     rep.add_mc("C05_Arith", r, sfx)
     if r.violated:
@@ -165,6 +196,19 @@ def run(rep, tier):
     rep.add_trace_result("seeded", evs2, v2, keyf=_key)
     rep.notes["vectors_detail"] = _stats(evs)
     rep.notes["seeded_detail"] = _stats(evs2)
+    # irrational constants: what the exact comparison of surds examined
+    nts, failing = set(v2["nontrivial"]), {f["tid"] for f in v2["fails"]}
+    surd = [e for e in evs2 if e["src"] == "surd"]
+    sacc = [e for e in surd if any(r["m"] == "const_inequality" for r in e["acc"])]
+    vsurd = [e for e in evs if '"sqrt"' in json.dumps(e["goal"])]
+    vnt = set(v1["nontrivial"])
+    rep.notes["surd_detail"] = {"seeded_events": len(surd), "accepted_by_const_inequality": len(sacc),
+                                "accepted_and_judged": sum(1 for e in sacc if e["tid"] in nts),
+                                "accepted_and_judged_true": sum(1 for e in sacc if e["tid"] in nts and e["tid"] not in failing),
+                                "accepted_and_judged_false": sum(1 for e in sacc if e["tid"] in failing),
+                                "accepted_not_examined": sum(1 for e in sacc if e["tid"] not in nts),
+                                "vector_events_with_sqrt": len(vsurd),
+                                "vector_events_with_sqrt_accepted_and_judged": sum(1 for e in vsurd if e["acc"] and e["tid"] in vnt)}
     fails = Counter(c for f in v["fails"] for c in f["fail"])
     if fails:
         rep.notes["failing_clauses"] = dict(fails)
@@ -177,12 +221,22 @@ def run(rep, tier):
     tr = rep.notes["traces"]
     require(tr["vectors"]["nontrivial"] >= (3000 if quick else 30000) and tr["seeded"]["nontrivial"] >= (500 if quick else 12000),
             "C05: too few examined accepted steps (vacuity guard)")
+    sd = rep.notes["surd_detail"]
+    require(sd["accepted_and_judged_true"] >= (60 if quick else 1500) and sd["vector_events_with_sqrt_accepted_and_judged"] >= (200 if quick else 1000),
+            "C05: too few accepted comparisons of irrational constants were judged (vacuity guard)")
     acc = Counter(rep.notes["vectors_detail"]["accepted_by_step"]) + Counter(rep.notes["seeded_detail"]["accepted_by_step"])
     for m in info["macros"]:
         require(acc[m] >= (3 if m == "real_eq_comparison" else 100), "C05: step %s accepted too few goals (vacuity guard)" % m)
 
 
+SURD_CLASS = "goal-with-sqrt:irrational-constants-compared-through-floats"
+
+
 def _key(e):
+    # goals that contain sqrt form ONE class per clause (known_findings.txt identifies the open finding about const_inequality's
+    # float fallback by this call-site class; a failure of any other clause on such a goal has another key and is reported)
+    if '"sqrt"' in json.dumps(e.get("goal")):
+        return SURD_CLASS
     return e.get("key")
 
 
